@@ -249,7 +249,7 @@ def shapes(tier: str, pid: str):
     out = []
     A = out.append
     if pid == "C05":
-        nmax1 = 5 if q else 8
+        nmax1 = 5 if q else 10
         for kind in ("data3d", "emg", "force3d", "fpdata"):
             key = {"data3d": "tracks", "emg": "signals", "force3d": "tracks", "fpdata": "plats"}[kind]
             for n in range(1, nmax1 + 1):
@@ -258,6 +258,8 @@ def shapes(tier: str, pid: str):
                 A((kind, {"n": n, key: 2, "lab": 0, "links": 0}))
             if not q:
                 A((kind, {"n": 2, key: 3, "lab": 0, "links": 0}))
+                A((kind, {"n": 3, key: 3, "lab": 0, "links": 0}))
+                A((kind, {"n": 6, key: 2, "lab": 0, "links": 0}))
         return out
     # C01 / C02
     frames = [1, 2, 3] if q else [1, 2, 3, 4, 5, 6]
@@ -300,6 +302,17 @@ def shapes(tier: str, pid: str):
     A(("events", {"events": [(0, 0), (1, 2)], "lab": [0, 3]}))
     A(("events", {"events": [(1, 0), (1, 1), (0, 1)], "lab": [1, 255, 1]}))  # the 255/256-byte boundary, every tier
     if not q:
+        for kind, key in (("data3d", "tracks"), ("emg", "signals"), ("force3d", "tracks"), ("fpdata", "plats")):
+            A((kind, {"n": 4, key: 3, "lab": [1, 0, 2], "links": 3}))
+            A((kind, {"n": 10, key: 1, "lab": [1], "links": 0}))
+            A((kind, {"n": 5, key: 2, "lab": [2], "links": 1}))
+        A(("data2d", {"cells": [[2, 1, None], [None, 3, 1], [1, None, 2]]}))
+        A(("data2d", {"cells": [[4]], "flag": 1}))
+        A(("calib", {"fmt": 1, "cams": 4, "model": 3}))
+        A(("calib", {"fmt": 2, "cams": 2, "model": 3}))
+        A(("optical", {"channels": 4, "lab": [3, 0, 31, 7]}))
+        A(("events", {"events": [(1, 4), (1, 0), (0, 1), (0, 0)], "lab": [1, 2, 0, 3]}))
+        A(("fpcal", {"plats": 4, "lab": [0, 1, 2, 3]}))
         A(("fpcal", {"plats": 3, "lab": [1, 2, 31]}))
         A(("data2d", {"cells": [[1, 2], [None, 3], [2, None]]}))
         A(("data2d", {"cells": [[3, 1, None], [None, 1, 2]]}))
